@@ -40,7 +40,7 @@ def runner(prop, fam, tier, seed, replay=None):
                         "implementation does, what RFC 1661 prescribes as next-state:wire-actions); information only, never a verdict",
                 count=len(rows),
                 lines=["DRIFT %s %s + %s -> %s sends{%s}; RFC 1661: %s" % r for r in rows])
-        tmp = ev_path + ".tmp"
+        tmp = ev_path + ".tmp%d" % os.getpid()
         json.dump(ev, open(tmp, "w"), indent=1, sort_keys=True)
         os.replace(tmp, ev_path)
         if drift is not None:
